@@ -8,6 +8,7 @@
 -/
 import SkModel.Proofs.ParInv
 import SkModel.Proofs.ParInvLocal
+import SkModel.Proofs.ParInvSync
 
 namespace Sk
 open StoreInv Par
@@ -29,14 +30,32 @@ theorem prun_induct {P : PState → Prop}
       exact prun_induct hstep ls s1 s' (hstep s l s1 h hs1) hr
     · cases hr
 
-theorem reach_inv12 {B : Nat} {progs : Nat → List (Ns × Option Val)} {s : PState} (hB : 0 < B)
-    (h : PReach B progs s) : Inv1 B s ∧ Inv2 B s := by
-  obtain ⟨ls, hr⟩ := h
-  refine prun_induct (P := fun s => Inv1 B s ∧ Inv2 B s) ?_ ls _ _
-    ⟨Inv1.init B progs, Inv2.init hB progs⟩ hr
-  intro s l s' ⟨h1, h2⟩ hs
+/-- all invariants together -/
+structure Inv (B : Nat) (progs : Nat → List (Ns × Option Val)) (s : PState) : Prop where
+  i1 : Inv1 B s
+  i2 : Inv2 B s
+  i3 : Inv3 s
+  i4 : Inv4 progs s
+
+theorem inv_init {B : Nat} (hB : 0 < B) (progs : Nat → List (Ns × Option Val)) :
+    Inv B progs (PState.init B progs) :=
+  ⟨Inv1.init B progs, Inv2.init hB progs, Inv3.init B progs, Inv4.init B progs⟩
+
+theorem inv_step {B : Nat} {progs : Nat → List (Ns × Option Val)} {s : PState} {l : PLbl}
+    {s' : PState} (hB : 0 < B) (h : Inv B progs s) (hs : pstep s l = some s') : Inv B progs s' := by
   have hs' := step_of_pstep hs
-  exact ⟨inv1_step h1 hs', inv2_step hB h1 h2 hs'⟩
+  exact ⟨inv1_step h.i1 hs', inv2_step hB h.i1 h.i2 hs', inv3_step hB h.i1 h.i2 h.i3 hs',
+    inv4_step hB h.i1 h.i2 h.i4 hs'⟩
+
+theorem reach_inv {B : Nat} {progs : Nat → List (Ns × Option Val)} {s : PState} (hB : 0 < B)
+    (h : PReach B progs s) : Inv B progs s := by
+  obtain ⟨ls, hr⟩ := h
+  exact prun_induct (P := Inv B progs) (fun _ _ _ hi hs => inv_step hB hi hs) ls _ _
+    (inv_init hB progs) hr
+
+theorem reach_inv12 {B : Nat} {progs : Nat → List (Ns × Option Val)} {s : PState} (hB : 0 < B)
+    (h : PReach B progs s) : Inv1 B s ∧ Inv2 B s :=
+  ⟨(reach_inv hB h).i1, (reach_inv hB h).i2⟩
 
 theorem reach_inv1 {B : Nat} {progs : Nat → List (Ns × Option Val)} {s : PState}
     (h : PReach B progs s) : Inv1 B s := by
@@ -147,6 +166,78 @@ theorem C06_no_shared_index (hB : 0 < B) (h : PReach B progs s) {w1 w2 : Nat} (h
   have := (reach_inv1 h).disj w1 w2 k1 k2 g1 g2 hk1 hk2 (fun e => absurd e hne)
   omega
 
+/-! ### 4. after `sync`, every index a worker handed out resolves in the shared store -/
+
+/-- the shared data only contains items of local stores, and contains what was synced -/
+theorem C06_shared_data (hB : 0 < B) (h : PReach B progs s) :
+    (∀ e, e ∈ s.sdata → ∃ w, e ∈ (s.ws w).st.data) ∧
+    (∀ w e, e ∈ (s.ws w).synced → e ∈ s.sdata) ∧
+    (∀ w, (s.ws w).pc = .done → ∀ e, e ∈ (s.ws w).st.data → e ∈ (s.ws w).synced) :=
+  ⟨(reach_inv hB h).i3.sd_src, (reach_inv hB h).i3.synced_sub, (reach_inv hB h).i3.done_all⟩
+
+/-- whatever the shared store returns for an index of worker `w` is `w`'s value — at any time,
+    whether or not anybody has finished -/
+theorem C06_shared_lookup_sound (hB : 0 < B) (h : PReach B progs s) {w idx : Nat} {v v' : Val}
+    (hm : (idx, v) ∈ (s.ws w).st.data) (hl : s.sdata.lookup idx = some v') : v' = v := by
+  have inv := reach_inv hB h
+  obtain ⟨w', hw'⟩ := inv.i3.sd_src _ (mem_of_lookup hl)
+  have hk : idx ∈ (s.ws w).st.data.map (·.1) := List.mem_map.mpr ⟨(idx, v), hm, rfl⟩
+  have hk' : idx ∈ (s.ws w').st.data.map (·.1) := List.mem_map.mpr ⟨(idx, v'), hw', rfl⟩
+  by_cases hww : w' = w
+  · subst hww
+    have hn := C06_local_keys_nodup hB h w'
+    have e1 := lookup_of_mem hn hm
+    have e2 := lookup_of_mem hn hw'
+    rw [e1] at e2; exact (Option.some.inj e2).symm
+  · exact absurd rfl (C06_no_shared_index hB h hww idx hk' idx hk)
+
+/-- a worker that has finished `sync` finds every one of its items in the shared store
+    (the other workers may still be running) -/
+theorem C06_resolve_worker (hB : 0 < B) (h : PReach B progs s) {w : Nat}
+    (hd : (s.ws w).pc = .done) :
+    ∀ idx v, (idx, v) ∈ (s.ws w).st.data → s.sdata.lookup idx = some v := by
+  intro idx v hm
+  have inv := reach_inv hB h
+  have hsd : (idx, v) ∈ s.sdata := inv.i3.synced_sub w _ (inv.i3.done_all w hd _ hm)
+  cases hl : s.sdata.lookup idx with
+  | none =>
+    have := List.lookup_eq_none_iff.mp hl (idx, v) hsd
+    simp at this
+  | some v' => rw [C06_shared_lookup_sound hB h hm hl]
+
+theorem C06_resolve (hB : 0 < B) (h : PReach B progs s) (hd : ∀ w, (s.ws w).pc = .done) :
+    ∀ w idx v, (idx, v) ∈ (s.ws w).st.data → s.sdata.lookup idx = some v :=
+  fun w => C06_resolve_worker hB h (hd w)
+
+/-- The micro-operations executed so far are a prefix of the program, one return value each;
+    the index returned for a stored value resolves to it in the local store. -/
+theorem C06_rets (hB : 0 < B) (h : PReach B progs s) (w : Nat) :
+    (s.ws w).ops = (progs w).drop (s.ws w).rets.length ∧
+    (s.ws w).rets.length ≤ (progs w).length ∧
+    (∀ (k : Nat) (ns : Ns), k < (s.ws w).rets.length → (progs w)[k]? = some (ns, none) →
+      (s.ws w).rets[k]? = some none) ∧
+    (∀ (k : Nat) (ns : Ns) (x : Val), k < (s.ws w).rets.length → (progs w)[k]? = some (ns, some x) →
+      ∃ i, (s.ws w).rets[k]? = some (some i) ∧ (s.ws w).st.get i = some x) := by
+  have inv := reach_inv hB h
+  refine ⟨inv.i4.ops_eq w, inv.i4.len w, ?_, ?_⟩
+  · intro k ns hk hop
+    obtain ⟨r, hr, hret⟩ := inv.i4.ret w k _ hk hop
+    rw [hr, hret.1 rfl]
+  · intro k ns x hk hop
+    obtain ⟨r, hr, hret⟩ := inv.i4.ret w k _ hk hop
+    obtain ⟨i, rfl, hm⟩ := hret.2 x rfl
+    exact ⟨i, hr, lookup_of_mem (C06_local_keys_nodup hB h w) hm⟩
+
+/-- every index a finished worker returned resolves in the shared store to the value stored
+    under it -/
+theorem C06_rets_resolve (hB : 0 < B) (h : PReach B progs s) {w : Nat}
+    (hd : (s.ws w).pc = .done) (k : Nat) (ns : Ns) (x : Val)
+    (hk : k < (s.ws w).rets.length) (hop : (progs w)[k]? = some (ns, some x)) :
+    ∃ i, (s.ws w).rets[k]? = some (some i) ∧ s.sdata.lookup i = some x := by
+  obtain ⟨-, -, -, hr⟩ := C06_rets hB h w
+  obtain ⟨i, h1, h2⟩ := hr k ns x hk hop
+  exact ⟨i, h1, C06_resolve_worker hB h hd i x (mem_of_lookup h2)⟩
+
 end Sk
 
 #print axioms Sk.C06_disjoint
@@ -156,3 +247,9 @@ end Sk
 #print axioms Sk.C06_indices_in_blocks
 #print axioms Sk.C06_local_keys_nodup
 #print axioms Sk.C06_no_shared_index
+#print axioms Sk.C06_shared_data
+#print axioms Sk.C06_shared_lookup_sound
+#print axioms Sk.C06_resolve_worker
+#print axioms Sk.C06_resolve
+#print axioms Sk.C06_rets
+#print axioms Sk.C06_rets_resolve
